@@ -96,6 +96,7 @@ def lex_operand(s: "Scanner") -> None:
 
     if s.accept(","):
         lex_opcode_index(s)
+        s.ignore_run(" ")
 
     p = s.peek()
 
